@@ -89,6 +89,10 @@ def value_node_cases(E):
 
 def cases(E):
     cs = value_node_cases(E)
+    # `.incbin`'s start symbol is a label too: the address of the file's first byte, defined in the scope the directive is written in (C07's contract)
+    from vf.props import C07 as c07
+    cs.append(Case(c07.H + "binary_node_contract", ".incbin: any content, any in-window LoROM address, written in an inner scope", c07.shape_bin,
+                   target=[c07.N + "BinaryNode.emit", c07.N + "BinaryNode.pc_after"]))
     for bc in [("lorom", "1"), ("lorom", "1_mirror"), ("hirom", "1"), ("lorom", "2")]:
         cs.append(Case(H + "phase_agreement_contract", f"{bc[0]}:{bc[1]}", shape_phase(bc), target=[P + "resolve_labels", P + "emit"], timeout_ms=40000))
     cs.append(Case(H + "label_node_contract", "any in-window address", shape_label, target=[N + "LabelNode.pc_after", N + "LabelNode.emit"]))
